@@ -13,9 +13,9 @@ Definition c07_csw (S : SOps) (lw : list (T S)) : list (T S) := csw S lw.
 Definition c07_comb (S : SOps) (N : nat) (u1 : T S) : list (T S) :=
   map (comb S N u1) (seq 0 N).
 
-(* plain resampling: sources of the copies, weights, parents *)
-Definition c07_resample (S : SOps) (lw : list (T S)) (u1 : T S) : list Z * list (T S) * list nat :=
-  resample (c07_ids (length lw)) lw u1.
+(* plain resampling: sources of the copied state / mean / covariance (three separate members), weights, parents *)
+Definition c07_resample (S : SOps) (lw : list (T S)) (u1 : T S) : list (particle Z Z Z) * list (T S) * list nat :=
+  resample3 (map (fun i => mkParticle i i i) (c07_ids (length lw))) lw u1.
 
 Definition c07_neff (S : SOps) (lw : list (T S)) : T S := neff S lw.
 Definition c07_lse (S : SOps) (lw : list (T S)) : T S := lse S lw.
